@@ -3,6 +3,8 @@ package c07
 import (
 	"context"
 	"fmt"
+	"os"
+	"strconv"
 	"strings"
 	"testing"
 	"time"
@@ -89,7 +91,8 @@ func init() {
 	}
 }
 
-var slowBody = map[string]string{"quick": "(do (trace! :h) :h)", "sleep": "(sleep 100000)", "loop": "(up 0)"}
+// "quick2": the same quick handler written as two forms (the first one is not in tail position)
+var slowBody = map[string]string{"quick": "(do (trace! :h) :h)", "quick2": "(trace! :h) :h", "sleep": "(sleep 100000)", "loop": "(up 0)"}
 var finBody = map[string]string{"quick": "(trace! :f)", "sleep": "(sleep 100000)", "loop": "(spin)"}
 
 func (s Shape) Text() string {
@@ -125,7 +128,7 @@ func (s Shape) outcome() string {
 	case "try":
 		in := s.Sub.outcome()
 		if in == "timeout" && s.Catch != "" {
-			if s.Catch == "quick" {
+			if s.Catch == "quick" || s.Catch == "quick2" {
 				return "handler"
 			}
 			return "timeout"
@@ -173,11 +176,11 @@ func genShape(t *rapid.T, d int) Shape {
 		s := Shape{Kind: "try", Sub: &sub}
 		switch gen.Uniform(t, "tryshape", 3) {
 		case 0:
-			s.Catch = []string{"quick", "quick", "sleep", "loop"}[gen.Uniform(t, "catch", 4)]
+			s.Catch = []string{"quick", "quick2", "sleep", "loop"}[gen.Uniform(t, "catch", 4)]
 		case 1:
 			s.Finally = []string{"quick", "sleep", "loop"}[gen.Uniform(t, "fin", 3)]
 		default:
-			s.Catch = []string{"quick", "quick", "sleep", "loop"}[gen.Uniform(t, "catch", 4)]
+			s.Catch = []string{"quick", "quick2", "sleep", "loop"}[gen.Uniform(t, "catch", 4)]
 			s.Finally = []string{"quick", "sleep", "loop"}[gen.Uniform(t, "fin", 3)]
 		}
 		return s
@@ -366,11 +369,20 @@ func TestReplay(t *testing.T) { pbt.Replay(t, P) }
 
 // TestEachKernel: every kernel bare and inside each try form, deadline and cancel (enumerated completely).
 func TestEachKernel(t *testing.T) {
+	shard, _ := strconv.Atoi(os.Getenv("VERIF_SHARD"))
+	shards, _ := strconv.Atoi(os.Getenv("VERIF_SHARDS"))
+	if shards <= 0 {
+		shards = 1
+	}
 	n := 0
-	for _, k := range kernelNames {
+	for ki, k := range kernelNames {
+		if ki%shards != shard {
+			continue
+		}
 		base := Shape{Kind: "kernel", Kernel: k}
 		shapes := []Shape{base,
 			{Kind: "try", Sub: &base, Catch: "quick"},
+			{Kind: "try", Sub: &base, Catch: "quick2", Finally: "quick"},
 			{Kind: "try", Sub: &base, Finally: "loop"},
 			{Kind: "try", Sub: &base, Catch: "loop", Finally: "quick"},
 		}
@@ -388,5 +400,5 @@ func TestEachKernel(t *testing.T) {
 			}
 		}
 	}
-	pbt.Exhaustive("every kernel x {bare, try+quick handler, try+looping finally, try+looping handler+finally} x {deadline, cancel, cancel before a far deadline}", n)
+	pbt.Exhaustive("every kernel x {bare, try+quick handler, try+two-form quick handler+finally, try+looping finally, try+looping handler+finally} x {deadline, cancel, cancel before a far deadline}", n)
 }
